@@ -271,7 +271,7 @@ def generate(rng):
                 s["st"] = RUNNING
         elif choice == "join":
             hang = w["script"]["dur"] is None
-            to = rng.choice([None, None, 0.5, 3.0, 45.0, 1000.0])
+            to = rng.choice([None, None, 0.5, 3.0, 45.0, 1000.0, 0, 3, 0.0])
             if hang and to is None:
                 to = rng.choice([0.5, 3.0, 45.0])
             if hang and s["st"] != RUNNING and to is None:
@@ -1137,6 +1137,7 @@ class Sim:
                 world.advance(to)
                 for p in rec.procs:
                     p.wait_dead()
+                self.settle()  # other wrappers' children whose exit instant has passed meanwhile
         else:
             st, val = call(fn, *args, **kwargs)
         elapsed = world.now - now0
@@ -1161,6 +1162,12 @@ class Sim:
             remaining = (rec.exit_at - now0) if not hang else sw.INF
             can_timeout = to is not None and not exited and remaining > to
             can_finish = not can_timeout
+            if to is not None and to <= 0 and exited and rec.state == RUNNING:
+                # join(timeout=0) on a child that has exited but whose exit the wrapper has not observed yet: the
+                # real Popen.communicate(timeout=0) raises TimeoutExpired before it has drained the pipes (found by
+                # the real-process phase), the simulated one returns; "do not wait at all" is defensible for a
+                # wrapper that still believes it is RUNNING, so both outcomes are accepted here
+                can_timeout = True
         # LocalApp.join raises the *builtin* TimeoutError (localapp.py does not import biotite's class); the
         # statement does not name the class, so both count as "the timeout was reported"
         is_timeout = st == "exc" and isinstance(val, (AppTimeout, TimeoutError))
@@ -1675,7 +1682,7 @@ def extra_phase(tier, seed, total, workers, scratch):
         "what": f"every call sequence of length <= {length} over {ENUM_ALPHABET} x fault kinds {ENUM_FAULTS} x wrapper kinds {KINDS}",
         "runs": agg.runs, "expected_runs": n, "exhaustive_over_this_family": agg.runs == n and not truncated, "violations": len(agg.violations)}}
     # ---- conformance: sampled histories against REAL child processes (gated fake executables) ----
-    nreal = REAL_RUNS.get(tier, REAL_RUNS["quick"])
+    nreal = int(os.environ.get("VERIF_REAL_RUNS") or REAL_RUNS.get(tier, REAL_RUNS["quick"]))
     sub2 = os.path.join(scratch, "real")
     os.makedirs(sub2, exist_ok=True)
     core.DIGEST_SAMPLE, core.SAMPLE_INDICES = 0, ()
